@@ -132,6 +132,197 @@ theorem C02_rules_in_order (ext : Ext) (fns : FnTables) (scope sn fname : Bytes)
   funext t
   exact Frame_fieldRules ext fns scope sn fname v descend hd rs d (({} : WSt).write t)
 
+/-! ### closed form for `Var` / `Map` / `Url`: one contribution per rule item, in rule order -/
+
+/-- the text one rule item contributes to the error (possibly empty) -/
+def itemText (c : FlatCfg) (ne nc : Bytes) (v : GoVal) (r : Bytes) : M Bytes :=
+  if r.isEmpty then pure []
+  else match resolveFn c.fns (parseValidNameKV r).1 with
+    | .unknown => pure (getJoinFieldErr [] ne (unknownFnMsg (parseValidNameKV r).1))
+    | .structural =>
+      if (parseValidNameKV r).1 == requiredB then
+        pure (if c.requiredViolated v then requiredClause [] nc (parseValidNameKV r).2.2 else [])
+      else if c.supportsGroups && ((parseValidNameKV r).1 == eitherB || (parseValidNameKV r).1 == bothEqB) then pure []
+      else pure (getJoinFieldErr [] nc (b! "valid \"" ++ r ++ b! "\" is no support"))
+    | .custom mk => pure (if c.isEmpty v then [] else customClause mk r [] nc)
+    | .builtin run => if c.isEmpty v then pure [] else run c.ext r [] nc v
+
+/-- the group member one rule item registers (`either` / `botheq` under `Map` / `Url`) -/
+def itemMembers (c : FlatCfg) (scope ne : Bytes) (v : GoVal) (r : Bytes) : List Member :=
+  if r.isEmpty then []
+  else match resolveFn c.fns (parseValidNameKV r).1 with
+    | .structural =>
+      if (parseValidNameKV r).1 == requiredB then []
+      else if c.supportsGroups && ((parseValidNameKV r).1 == eitherB || (parseValidNameKV r).1 == bothEqB) then
+        [{ scope := scope, validName := r, objName := [], fieldName := ne, val := v }]
+      else []
+    | _ => []
+
+theorem wst_id (st : WSt) : { st with buf := st.buf ++ [], members := st.members ++ [] } = st := by
+  cases st; simp
+
+/-- one step of the loop: the item's text and members, then the rest from the extended state -/
+theorem flat_one_step (c : FlatCfg) (scope ne nc : Bytes) (v : GoVal) (r : Bytes) (rs : List Bytes) (st : WSt) :
+    flatRules c scope ne nc v (r :: rs) st
+      = (itemText c ne nc v r >>= fun t =>
+          flatRules c scope ne nc v rs
+            { st with buf := st.buf ++ t, members := st.members ++ itemMembers c scope ne v r }) := by
+  rw [flatRules]
+  unfold itemText itemMembers
+  by_cases hr : r.isEmpty = true
+  · simp [hr, wst_id, bind, Except.bind, pure, Except.pure]
+  · have hr' : r.isEmpty = false := by simpa using hr
+    simp only [hr', Bool.false_eq_true, if_false]
+    rcases parseValidNameKV r with ⟨key, a, m⟩
+    simp only
+    cases resolveFn c.fns key with
+    | unknown => simp [WSt.write, bind, Except.bind, pure, Except.pure]
+    | structural =>
+      simp only
+      by_cases hreq : (key == requiredB) = true
+      · simp only [hreq, if_true]
+        by_cases hv : c.requiredViolated v = true
+        · simp [hv, WSt.write, bind, Except.bind, pure, Except.pure]
+        · simp [hv, wst_id, bind, Except.bind, pure, Except.pure]
+      · simp only [hreq, Bool.false_eq_true, if_false]
+        by_cases hg : (c.supportsGroups && (key == eitherB || key == bothEqB)) = true
+        · simp [hg, bind, Except.bind, pure, Except.pure]
+        · simp [hg, WSt.write, bind, Except.bind, pure, Except.pure]
+    | custom mk =>
+      simp only
+      by_cases hz : c.isEmpty v = true
+      · simp [hz, wst_id, bind, Except.bind, pure, Except.pure]
+      · simp [hz, WSt.write, bind, Except.bind, pure, Except.pure]
+    | builtin run =>
+      simp only
+      by_cases hz : c.isEmpty v = true
+      · simp [hz, wst_id, bind, Except.bind, pure, Except.pure]
+      · simp only [hz, Bool.false_eq_true, if_false, WSt.write, List.append_nil]
+
+/-- **every rule item contributes exactly once, in rule order**: the rule loop of `Var` / `Map` / `Url`
+appends, for the items `r₁ … rₙ` in this order, the text `itemText rᵢ` of each (a clause, or nothing),
+and registers the group members in the same order — whatever the earlier items wrote; a residual or
+a panic of one item is the outcome of the loop -/
+theorem C02_flat_closed_form (c : FlatCfg) (scope ne nc : Bytes) (v : GoVal) (rs : List Bytes) (st : WSt) :
+    flatRules c scope ne nc v rs st
+      = (rs.mapM (itemText c ne nc v) >>= fun ts =>
+          pure { st with buf := st.buf ++ ts.flatten,
+                         members := st.members ++ rs.flatMap (itemMembers c scope ne v) }) := by
+  induction rs generalizing st with
+  | nil => simp [flatRules, wst_id]
+  | cons r rs ih =>
+    rw [flat_one_step, List.mapM_cons]
+    cases itemText c ne nc v r with
+    | error e => simp [bind, Except.bind]
+    | ok t =>
+      simp only [bind, Except.bind, ih]
+      cases List.mapM (itemText c ne nc v) rs with
+      | error e => simp [bind, Except.bind, pure, Except.pure]
+      | ok ts => simp [bind, Except.bind, pure, Except.pure, List.append_assoc]
+
+/-! ### closed form for struct fields -/
+
+open PGV.Proofs.Frame in
+/-- what one rule item of a struct field produces, run from the empty state; `d` = a `required` /
+`exist` item came earlier in the list (the nested object has been visited already) -/
+def fieldItem (ext : Ext) (fns : FnTables) (scope sn fname : Bytes) (v : GoVal)
+    (descend : Bool → Bool → Bytes → WSt → M WSt) (d : Bool) (r : Bytes) : M WSt :=
+  if r.isEmpty then pure {}
+  else match resolveFn fns (parseValidNameKV r).1 with
+    | .unknown => pure (({} : WSt).write (getJoinFieldErr sn fname (unknownFnMsg (parseValidNameKV r).1)))
+    | .structural =>
+      if (parseValidNameKV r).1 == requiredB then
+        (if requiredEmpty v then pure (({} : WSt).write (requiredClause sn fname (parseValidNameKV r).2.2))
+         else descend false d (parseValidNameKV r).2.2 {})
+      else if (parseValidNameKV r).1 == existB then descend true d (parseValidNameKV r).2.2 {}
+      else pure { members := [{ scope := scope, validName := r, objName := sn, fieldName := fname, val := v }] }
+    | .custom mk => pure (if v.isZero then {} else ({} : WSt).write (customClause mk r sn fname))
+    | .builtin run => if v.isZero then pure {} else run ext r sn fname v >>= fun t => pure (({} : WSt).write t)
+
+def descAfter (fns : FnTables) (d : Bool) (r : Bytes) : Bool :=
+  if r.isEmpty then d
+  else match resolveFn fns (parseValidNameKV r).1 with
+    | .structural => if (parseValidNameKV r).1 == requiredB || (parseValidNameKV r).1 == existB then true else d
+    | _ => d
+
+open PGV.Proofs.Frame in
+/-- the items' contributions, each run from the empty state, appended in rule order -/
+def fieldItems (ext : Ext) (fns : FnTables) (scope sn fname : Bytes) (v : GoVal)
+    (descend : Bool → Bool → Bytes → WSt → M WSt) : Bool → List Bytes → M WSt
+  | _, [] => pure {}
+  | d, r :: rs => fieldItem ext fns scope sn fname v descend d r >>= fun a =>
+      lift a (fieldItems ext fns scope sn fname v descend (descAfter fns d r) rs)
+
+open PGV.Proofs.Frame in
+theorem field_one_step (ext : Ext) (fns : FnTables) (scope sn fname : Bytes) (v : GoVal)
+    (descend : Bool → Bool → Bytes → WSt → M WSt) (hd : ∀ a b c, Frame (descend a b c))
+    (r : Bytes) (rs : List Bytes) (d : Bool) :
+    fieldRules ext fns scope sn fname v descend (r :: rs) d {}
+      = (fieldItem ext fns scope sn fname v descend d r >>= fun a =>
+          lift a (fieldRules ext fns scope sn fname v descend rs (descAfter fns d r) {})) := by
+  have hF := fun rs d => Frame_fieldRules ext fns scope sn fname v descend hd rs d
+  rw [fieldRules]
+  unfold fieldItem descAfter
+  by_cases hr : r.isEmpty = true
+  · simp only [hr, if_true]
+    show _ = lift {} _
+    rw [← hF]
+  · have hr' : r.isEmpty = false := by simpa using hr
+    simp only [hr', Bool.false_eq_true, if_false]
+    rcases parseValidNameKV r with ⟨key, a, m⟩
+    simp only
+    cases resolveFn fns key with
+    | unknown => simp only; rw [hF]; rfl
+    | structural =>
+      simp only
+      by_cases hreq : (key == requiredB) = true
+      · simp only [hreq, if_true, Bool.true_or]
+        by_cases he : requiredEmpty v = true
+        · simp only [he, if_true]; rw [hF]; rfl
+        · simp only [he, Bool.false_eq_true, if_false]
+          congr 1; funext st'; exact hF rs true st'
+      · simp only [hreq, Bool.false_eq_true, if_false, Bool.false_or]
+        by_cases hex : (key == existB) = true
+        · simp only [hex, if_true]
+          congr 1; funext st'; exact hF rs true st'
+        · simp only [hex, Bool.false_eq_true, if_false]
+          rw [hF]; rfl
+    | custom mk =>
+      simp only
+      by_cases hz : v.isZero = true
+      · simp only [hz, if_true]
+        show _ = lift {} _
+        rw [← hF]
+      · simp only [hz, Bool.false_eq_true, if_false]; rw [hF]; rfl
+    | builtin run =>
+      simp only
+      by_cases hz : v.isZero = true
+      · simp only [hz, if_true]
+        show _ = lift {} _
+        rw [← hF]
+      · simp only [hz, Bool.false_eq_true, if_false]
+        cases run ext r sn fname v with
+        | error e => rfl
+        | ok t => show fieldRules _ _ _ _ _ _ _ _ _ _ = _; rw [hF]; rfl
+
+open PGV.Proofs.Frame in
+/-- **struct fields: every rule item contributes exactly once, in rule order** — the loop's result from
+any state is that state extended by the items' own contributions (clause text, visit of the nested
+object, group registration), each computed independently of what was written before -/
+theorem C02_field_closed_form (ext : Ext) (fns : FnTables) (scope sn fname : Bytes) (v : GoVal)
+    (descend : Bool → Bool → Bytes → WSt → M WSt) (hd : ∀ a b c, Frame (descend a b c))
+    (rs : List Bytes) (d : Bool) (st : WSt) :
+    fieldRules ext fns scope sn fname v descend rs d st
+      = lift st (fieldItems ext fns scope sn fname v descend d rs) := by
+  rw [Frame_fieldRules ext fns scope sn fname v descend hd rs d st]
+  congr 1
+  induction rs generalizing d with
+  | nil => simp [fieldRules, fieldItems]
+  | cons r rs ih =>
+    rw [field_one_step ext fns scope sn fname v descend hd, fieldItems]
+    congr 1; funext a
+    rw [ih]
+
 /-- non-vacuity: two violated rules on one `Var` value give two clauses in rule order, one separator -/
 example :
     (match varValid (fun _ => none) {} [b! "ge=5,le=1"] (.val (b! "int") (.int 0 3)) with
